@@ -1,4 +1,4 @@
-CONSTANT MaxTries = 3
+CONSTANT MaxTries = 2
 CONSTANT Modes = {"doc", "princ"}
 SPECIFICATION DSpec
 INVARIANT Monotone
